@@ -39,16 +39,31 @@ def run(ctx):
     samples.append(ex[len(ex) // 2])
     nrand = 2500 if quick else 40000
     gstats = {}
+    ALLQ = []
     for depth, share in ((2, 0.4), (3, 0.4), (4, 0.2)):
         g = zgen.G(ctx.sub_rng("gen%d" % depth), max_depth=depth)
         qs = [g.program() for _ in range(int(nrand * share))]
+        ALLQ.extend(qs)
         samples.append(qs[0])
         for i in range(0, len(qs), 3000):
             compare(ctx, qs[i:i + 3000], stats, "random-depth%d" % depth)
         for k, v in g.stats.items():
             gstats[k] = gstats.get(k, 0) + v
+    # the hypothesis of the theorems, evaluated on what the builder makes of every program:
+    # the chain (and every block body) is in its constructed state (QuietM.quietb, reflected by quietb_quiet)
+    allq = list(dict.fromkeys(ex + ALLQ))
+    trees = zw.run_cases([zw.enc(q, m="tree") for q in allq])
+    pairs = [(q, t.d["sx_simplified"]) for q, t in zip(allq, trees) if t.d.get("sx_simplified") and t.d.get("built") is not False]
+    qres = engine.run_model([sx for _, sx in pairs], mode="quiet")
+    qhist = {}
+    for (q, sx), r in zip(pairs, qres):
+        k = {"EQ": "quiet", "OK": "has format op (outside the theorem)", "NE": "NOT quiet"}.get(r[0], r[0])
+        qhist[k] = qhist.get(k, 0) + 1
+        if r[0] == "NE":
+            ctx.violation("the chain built for `%s` is not in its constructed state: the hypothesis of C01_engine_forgets does not hold for it" % q[:200], {"query": q, "kind": "not-quiet"})
     common.report_broken_obligations(ctx, oblig, bool(ctx.violations))
     ctx.cov.update({
+        "built_chains_quiet": qhist,
         "evaluations": stats["evaluations"],
         "distinct_nontrivial": len(stats["nontrivial"]),
         "rule": "programs over the core constructs: every term up to a size bound over a 13-word alphabet with the constructors cat, `,`, `||`, [ ], ?( ), !( ), infix ==, let, E?, bounded E*, %( %) — each alone and behind a two-stack producer — plus random nested programs (depth 2-4, typed generation, 5% ill-typed) behind multi-yield producers; non-trivial = terminates with >= 2 results and contains a multi-stack construct; each program is parsed by the implementation, its tree is run by the extracted engine model, event streams compared in order",
